@@ -11,6 +11,7 @@ import LdkModel.Proofs.Bits
 import LdkModel.Proofs.OfferMeta
 import LdkModel.Model.OfferMirror
 import LdkModel.Proofs.OfferMirror
+import LdkModel.Proofs.OfferReaders
 namespace Ldk.C18
 open Ldk.Prim.Bech32
 
@@ -963,6 +964,69 @@ theorem static_invoice_mirrors_offer (src : List UInt8) (rs : List Rec) (o : Own
 example : build staticInvoicePlan [10, 1, 65, 0xfe, 0x3b, 0x9a, 0xca, 0x01, 1, 9] ⟨[], [176, 1, 3], [], [240, 1, 7]⟩
     = some [10, 1, 65, 176, 1, 3, 240, 1, 7, 0xfe, 0x3b, 0x9a, 0xca, 0x01, 1, 9] := by decide
 
+/-! ### round 6: `remaining_bytes` IS the tail of the source — the experimental half of the mirror
+    `UnsignedInvoiceRequest::new` / `UnsignedBolt12Invoice::new` / `UnsignedStaticInvoice::new` take the
+    experimental records from `remaining_bytes = &src[copied_len..]`.  These theorems remove the `rest`
+    and the `build … = some out` hypothesis of the three theorems above: the construction SUCCEEDS on
+    every well-formed ascending source without a record below the copied range, the experimental part
+    of the output is the experimental range of the SOURCE record list, and every experimental source
+    record reappears byte for byte. -/
+
+/-- offer → invoice request, complete: (hoffer: an offer has no record of type 0 — the reader chain
+    `(OfferTlvStream 1..80, ExperimentalOfferTlvStream)` refuses it; with one, `remaining_bytes` is
+    misaligned, see the example below) -/
+theorem invreq_mirrors_offer_experimental (src : List UInt8) (rs : List Rec) (o : Own)
+    (hp : parseStream src = some rs) (hasc : rs.Pairwise (fun a b => a.ty < b.ty))
+    (hoffer : ∀ r ∈ rs, OFFER_TYPES_LO ≤ r.ty) :
+    build invreqPlan src o = some (o.payer ++ recsBytes (rangeRecs OFFER_TYPES_LO OFFER_TYPES_HI rs) ++ o.own ++ o.sig ++
+        recsBytes (rangeRecs EXPERIMENTAL_OFFER_TYPES_LO EXPERIMENTAL_OFFER_TYPES_HI rs) ++ o.expOwn) ∧
+    (∀ r ∈ rs, EXPERIMENTAL_OFFER_TYPES_LO ≤ r.ty → r.ty < EXPERIMENTAL_OFFER_TYPES_HI →
+      r ∈ rangeRecs EXPERIMENTAL_OFFER_TYPES_LO EXPERIMENTAL_OFFER_TYPES_HI rs) := by
+  refine ⟨?_, fun r hr h1 h2 => mem_rangeRecs _ _ rs r hasc hr h1 h2⟩
+  have htail := copyRest_is_tail 1 80 src rs hp hasc hoffer
+  have hexp := rangeRecs_tail 1 80 1000000000 2000000000 rs (by decide)
+  simp only [build, invreqPlan, runPlan, stepSeg, hp, Own.get, List.nil_append, Nat.zero_add, htail, hexp,
+    Option.map_some, OFFER_TYPES_LO, OFFER_TYPES_HI, EXPERIMENTAL_OFFER_TYPES_LO, EXPERIMENTAL_OFFER_TYPES_HI]
+
+/-- invoice request / refund → invoice, complete; the copied range starts at 0, no side condition -/
+theorem invoice_mirrors_request_experimental (src : List UInt8) (rs : List Rec) (o : Own)
+    (hp : parseStream src = some rs) (hasc : rs.Pairwise (fun a b => a.ty < b.ty)) :
+    build invoicePlan src o = some (recsBytes (rangeRecs 0 INVOICE_REQUEST_TYPES_HI rs) ++ o.own ++ o.sig ++
+        recsBytes (rangeRecs EXPERIMENTAL_OFFER_TYPES_LO EXPERIMENTAL_INVOICE_REQUEST_TYPES_HI rs) ++ o.expOwn) ∧
+    (∀ r ∈ rs, EXPERIMENTAL_OFFER_TYPES_LO ≤ r.ty → r.ty < EXPERIMENTAL_INVOICE_REQUEST_TYPES_HI →
+      r ∈ rangeRecs EXPERIMENTAL_OFFER_TYPES_LO EXPERIMENTAL_INVOICE_REQUEST_TYPES_HI rs) := by
+  refine ⟨?_, fun r hr h1 h2 => mem_rangeRecs _ _ rs r hasc hr h1 h2⟩
+  have htail := copyRest_is_tail 0 160 src rs hp hasc (fun _ _ => Nat.zero_le _)
+  have hexp := rangeRecs_tail 0 160 1000000000 3000000000 rs (by decide)
+  simp only [build, invoicePlan, runPlan, stepSeg, hp, Own.get, List.nil_append, Nat.zero_add, htail, hexp,
+    Option.map_some, INVOICE_REQUEST_TYPES_HI, EXPERIMENTAL_OFFER_TYPES_LO, EXPERIMENTAL_INVOICE_REQUEST_TYPES_HI]
+
+/-- offer → static invoice, complete -/
+theorem static_invoice_mirrors_offer_experimental (src : List UInt8) (rs : List Rec) (o : Own)
+    (hp : parseStream src = some rs) (hasc : rs.Pairwise (fun a b => a.ty < b.ty))
+    (hoffer : ∀ r ∈ rs, OFFER_TYPES_LO ≤ r.ty) :
+    build staticInvoicePlan src o = some (recsBytes (rangeRecs OFFER_TYPES_LO OFFER_TYPES_HI rs) ++ o.own ++ o.sig ++
+        recsBytes (rangeRecs EXPERIMENTAL_OFFER_TYPES_LO EXPERIMENTAL_OFFER_TYPES_HI rs) ++ o.expOwn) ∧
+    (∀ r ∈ rs, EXPERIMENTAL_OFFER_TYPES_LO ≤ r.ty → r.ty < EXPERIMENTAL_OFFER_TYPES_HI →
+      r ∈ rangeRecs EXPERIMENTAL_OFFER_TYPES_LO EXPERIMENTAL_OFFER_TYPES_HI rs) := by
+  refine ⟨?_, fun r hr h1 h2 => mem_rangeRecs _ _ rs r hasc hr h1 h2⟩
+  have htail := copyRest_is_tail 1 80 src rs hp hasc hoffer
+  have hexp := rangeRecs_tail 1 80 1000000000 2000000000 rs (by decide)
+  simp only [build, staticInvoicePlan, runPlan, stepSeg, hp, Own.get, List.nil_append, Nat.zero_add, htail, hexp,
+    Option.map_some, OFFER_TYPES_LO, OFFER_TYPES_HI, EXPERIMENTAL_OFFER_TYPES_LO, EXPERIMENTAL_OFFER_TYPES_HI]
+
+/-- the parse of `remaining_bytes` is the tail of the source record list (`parseStream`-append lemma) -/
+theorem remaining_bytes_is_tail (src : List UInt8) (A B : List Rec) (h : parseStream src = some (A ++ B)) :
+    parseStream (src.drop (recsBytes A).length) = some B :=
+  parseStream_drop_prefix src A B h
+
+/-- non-vacuity + why `hoffer` is there (the code that exists): a source with a 4-byte record of type 0
+    in front makes `remaining_bytes` start inside a record — the construction has no answer -/
+example : build invreqPlan [10, 1, 65, 0xfe, 0x3b, 0x9a, 0xca, 0x01, 1, 9] ⟨[0, 1, 5], [88, 1, 3], [], [240, 1, 7]⟩
+    = some [0, 1, 5, 10, 1, 65, 88, 1, 3, 240, 1, 7, 0xfe, 0x3b, 0x9a, 0xca, 0x01, 1, 9] := by decide
+example : build invreqPlan [0, 2, 5, 5, 10, 1, 65, 0xfe, 0x3b, 0x9a, 0xca, 0x01, 1, 9] ⟨[0, 1, 5], [88, 1, 3], [], [240, 1, 7]⟩
+    = none := by decide
+
 /-- the record ranges the hand-written coverage model (Model/OfferMeta.lean: `offerCovered`,
     `invoiceCovered`) uses ARE the range constants of the source (translated by gen_c18_mirror.py) -/
 theorem coverage_ranges_match_source :
@@ -976,6 +1040,142 @@ theorem coverage_ranges_match_source :
 example : OfferMeta.OFFER_TYPES_HI = 80 := rfl
 
 end mirror
+
+/-! ## BOLT-12: which record types the parsers admit (round 6)
+    `ParsedMessage::<T>::try_from` = the `tlv_stream!` range readers of the tuple `T`, one after the
+    other over one cursor, then "the cursor must be exhausted".  The chains (which readers, the ORDER of
+    the `CursorReadable::read` statements, every range, every field type) are translated from the Rust
+    text on every run (tools/gen_c18_readers.py -> Generated/C18Readers.lean); the loop of one reader is
+    Model/OfferReaders.lean::readOne (shape pinned by the translator); driver op `readers`. -/
+section readers
+open Ldk.OfferReaders Ldk.C18Readers
+open Ldk.OfferMirror Ldk.C18Mirror
+open Ldk.OfferMeta (rangeRecs)
+open Ldk.Merkle (Rec parseStream)
+
+/-- ranges of consecutive readers do not overlap and are in ascending order -/
+def chainSorted : List Reader → Bool
+  | a :: b :: rest => decide (a.hi ≤ b.lo) && chainSorted (b :: rest)
+  | _ => true
+
+theorem chainSorted_pairwise : ∀ (c : List Reader), (∀ rd ∈ c, rd.lo ≤ rd.hi) → chainSorted c = true →
+    c.Pairwise (fun a b => a.hi ≤ b.lo)
+  | [], _, _ => List.Pairwise.nil
+  | [_], _, _ => List.pairwise_singleton _ _
+  | a :: b :: rest, hne, h => by
+    simp only [chainSorted, Bool.and_eq_true, decide_eq_true_eq] at h
+    have ih := chainSorted_pairwise (b :: rest) (fun rd hrd => hne rd (List.mem_cons_of_mem _ hrd)) h.2
+    refine List.pairwise_cons.mpr ⟨?_, ih⟩
+    intro x hx
+    rcases List.mem_cons.mp hx with rfl | hx'
+    · exact h.1
+    · have h1 := (List.pairwise_cons.mp ih).1 x hx'
+      have h2 := hne b (List.mem_cons_of_mem _ (List.mem_cons_self ..))
+      have h3 := h.1
+      omega
+
+/-- THE TRANSLATED CHAINS ARE WELL FORMED: in every message tuple the readers run in ascending,
+    non-overlapping range order (a reader moved in the tuple / in the `impl CursorReadable`, or a range
+    constant that reaches into its neighbour, breaks this), every reader has a non-empty range and a
+    field type list inside its own range -/
+theorem reader_chains_sorted :
+    ∀ c ∈ [offerChain, invreqChain, invreqPartialChain, invoiceChain, invoicePartialChain, staticInvoiceChain, refundChain],
+      chainSorted c = true ∧ c.all (fun rd => decide (rd.lo < rd.hi) && rd.known.all (inRange rd)) = true := by
+  decide
+
+/-- NOTHING OUTSIDE THE RANGES IS ADMITTED (any chain): if the readers consume the whole stream (the
+    exhausted-cursor check of ParsedMessage::try_from passes) then every record type lies in the range
+    of one of the chain's readers and is a field type of that reader or odd -/
+theorem readers_admit_only_range_types (c : List Reader) (ts : List Nat) (h : chainAccepts c ts = true) :
+    ∀ t ∈ ts, ∃ rd ∈ c, rd.lo ≤ t ∧ t < rd.hi ∧ (rd.known.contains t = true ∨ t % 2 = 1) := by
+  have h' := (chainAccepts_iff c ts).mp h
+  obtain ⟨pre, hpre, hall, _⟩ := runChain_sound c ts [] h'
+  intro t ht
+  rw [hpre, List.append_nil] at ht
+  obtain ⟨rd, hrd, hin, htol⟩ := hall t ht
+  simp only [inRange, Bool.and_eq_true, decide_eq_true_eq] at hin
+  refine ⟨rd, hrd, hin.1, hin.2, ?_⟩
+  simpa [tolerates] using htol
+
+/-- AN ADMITTED STREAM IS STRICTLY ASCENDING as a whole (not only inside each reader), for every chain
+    whose ranges are in ascending order — in particular for the seven translated ones -/
+theorem readers_admit_only_ascending (c : List Reader) (ts : List Nat)
+    (hne : ∀ rd ∈ c, rd.lo ≤ rd.hi) (hs : chainSorted c = true) (h : chainAccepts c ts = true) :
+    ts.Pairwise (fun a b => a < b) := by
+  have h' := (chainAccepts_iff c ts).mp h
+  obtain ⟨pre, hpre, _, hpw⟩ := runChain_sound c ts [] h'
+  rw [hpre, List.append_nil]
+  exact hpw (chainSorted_pairwise c hne hs)
+
+/-- what `Offer::try_from` admits: offer records 1..80 and experimental offer records only — never a
+    payer-metadata record (type 0), never a signature, never anything in a gap -/
+theorem accepted_offer_types (ts : List Nat) (h : chainAccepts offerChain ts = true) :
+    ∀ t ∈ ts, (OFFER_TYPES_LO ≤ t ∧ t < OFFER_TYPES_HI) ∨ (EXPERIMENTAL_OFFER_TYPES_LO ≤ t ∧ t < EXPERIMENTAL_OFFER_TYPES_HI) := by
+  intro t ht
+  obtain ⟨rd, hrd, h1, h2, _⟩ := readers_admit_only_range_types _ _ h t ht
+  simp only [offerChain, List.mem_cons, List.not_mem_nil, or_false] at hrd
+  rcases hrd with rfl | rfl
+  · exact Or.inl ⟨h1, h2⟩
+  · exact Or.inr ⟨h1, h2⟩
+
+/-- the unsigned invoice request a remote signer re-parses carries no signature-range record and nothing
+    in the gaps 160..10⁹ / above 3·10⁹: exactly the hypothesis `hty` of reparsed_invreq_signs_to_ascending_stream -/
+theorem accepted_unsigned_invreq_types (ts : List Nat) (h : chainAccepts invreqPartialChain ts = true) :
+    ∀ t ∈ ts, t < INVOICE_REQUEST_TYPES_HI ∨ EXPERIMENTAL_OFFER_TYPES_LO ≤ t := by
+  intro t ht
+  obtain ⟨rd, hrd, h1, h2, _⟩ := readers_admit_only_range_types _ _ h t ht
+  simp only [invreqPartialChain, List.mem_cons, List.not_mem_nil, or_false] at hrd
+  have e1 : rPayerTlvStream.hi = 1 := rfl
+  have e2 : rOfferTlvStream.hi = 80 := rfl
+  have e3 : rInvoiceRequestTlvStream.hi = 160 := rfl
+  have e4 : rExperimentalOfferTlvStream.lo = 1000000000 := rfl
+  have e5 : rExperimentalInvoiceRequestTlvStream.lo = 2000000000 := rfl
+  simp only [INVOICE_REQUEST_TYPES_HI, EXPERIMENTAL_OFFER_TYPES_LO]
+  rcases hrd with rfl | rfl | rfl | rfl | rfl <;> omega
+
+/-- COMPOSITION parser ∘ builder: an offer that `Offer::try_from` admits (reader chain accepts the types
+    of its records) can always be answered — `UnsignedInvoiceRequest::new` + sign succeeds on its bytes,
+    `remaining_bytes` is aligned (no record below the copied range: the chain refuses type 0), and the
+    request mirrors every offer record, experimental ones included.  No ascending / no-type-0 hypothesis
+    is left: both follow from the acceptance by the translated chain. -/
+theorem accepted_offer_is_mirrored (src : List UInt8) (rs : List Rec) (o : Own)
+    (hp : parseStream src = some rs) (hacc : chainAccepts offerChain (rs.map (·.ty)) = true) :
+    build invreqPlan src o = some (o.payer ++ recsBytes (rangeRecs OFFER_TYPES_LO OFFER_TYPES_HI rs) ++ o.own ++ o.sig ++
+        recsBytes (rangeRecs EXPERIMENTAL_OFFER_TYPES_LO EXPERIMENTAL_OFFER_TYPES_HI rs) ++ o.expOwn) ∧
+    (∀ r ∈ rs, r ∈ rangeRecs OFFER_TYPES_LO OFFER_TYPES_HI rs ∨ r ∈ rangeRecs EXPERIMENTAL_OFFER_TYPES_LO EXPERIMENTAL_OFFER_TYPES_HI rs) := by
+  have hsorted := (reader_chains_sorted offerChain (by simp)).1
+  have hne : ∀ rd ∈ offerChain, rd.lo ≤ rd.hi := by decide
+  have hasc' := readers_admit_only_ascending offerChain _ hne hsorted hacc
+  have hasc : rs.Pairwise (fun a b => a.ty < b.ty) := by
+    simpa [List.pairwise_map] using hasc'
+  have hty := accepted_offer_types _ hacc
+  have hoffer : ∀ r ∈ rs, OFFER_TYPES_LO ≤ r.ty := by
+    intro r hr
+    have := hty r.ty (List.mem_map.mpr ⟨r, hr, rfl⟩)
+    simp only [OFFER_TYPES_LO, OFFER_TYPES_HI, EXPERIMENTAL_OFFER_TYPES_LO, EXPERIMENTAL_OFFER_TYPES_HI] at this ⊢
+    omega
+  have hm := invreq_mirrors_offer_experimental src rs o hp hasc hoffer
+  have hm0 := invreq_mirrors_offer src rs o
+  refine ⟨hm.1, ?_⟩
+  intro r hr
+  rcases hty r.ty (List.mem_map.mpr ⟨r, hr, rfl⟩) with h | h
+  · exact Or.inl (Ldk.OfferMeta.mem_rangeRecs _ _ rs r hasc hr h.1 h.2)
+  · exact Or.inr (hm.2 r hr h.1 h.2)
+
+/-- non-vacuity: a request with payer metadata, an unknown odd offer record, payer id, an experimental
+    record is admitted; the same with a record in the gap (1001), an unknown EVEN record, a record out of
+    order, or a signature-range record in the UNSIGNED chain is refused; an offer with a type-0 record is refused -/
+example : chainAccepts invreqChain [0, 10, 77, 88, 240, 1000000001, 2999999999] = true := by decide
+example : chainAccepts invreqChain [0, 10, 88, 240, 1001] = false := by decide
+example : chainAccepts invreqChain [0, 10, 78, 88, 240] = false := by decide
+example : chainAccepts invreqChain [0, 88, 10, 240] = false := by decide
+example : chainAccepts invreqPartialChain [0, 10, 88, 241] = false := by decide
+example : chainAccepts invreqChain [0, 10, 88, 241, 999] = true := by decide
+example : chainAccepts offerChain [0, 10, 22] = false := by decide
+example : chainAccepts offerChain [10, 22, 1999999999] = true := by decide
+example : chainAccepts invoiceChain [0, 22, 88, 160, 239, 240, 3999999999] = true ∧ chainAccepts invoiceChain [0, 22, 88, 160, 240, 4000000001] = false := by decide
+
+end readers
 
 /-! ## BOLT-11: numeric bounds and field widths
     Every comparison, literal and panic site below is a definition of `Generated/C18Bounds.lean`,
